@@ -28,6 +28,7 @@ type Loc struct {
 	Path   []locStep
 	T      types.Type // pointee type
 	Global string     // non-empty: base is a package-level variable (cell named by the global)
+	Private string    // non-empty: a local variable whose address never escapes: stored in components of its own
 }
 
 type locStep struct {
@@ -68,6 +69,17 @@ func (m Mem) sig() string {
 
 // pattern: "*" all; "P*" prefix; "*S" suffix; exact otherwise
 func patMatch(pat, name string) bool {
+	if strings.HasPrefix(name, "L:") {
+		// private locals are only havocked by patterns that name them: "L~!t0"
+		if !strings.HasPrefix(pat, "L~") {
+			return false
+		}
+		key := pat[2:]
+		return strings.Contains(name, key+".") || strings.HasSuffix(name, key)
+	}
+	if strings.HasPrefix(pat, "L~") {
+		return false
+	}
 	switch {
 	case pat == "*":
 		return true
@@ -91,10 +103,56 @@ func patsMatch(pats []string, name string) bool {
 }
 
 // havocPats: forget everything about the components matching pats.
+// supersetOf: formula "ghost set b contains ghost set a" for nested Bool-valued arrays
+func supersetOf(srt, a, b string, depth int) string {
+	if srt == sBool {
+		return implies(a, b)
+	}
+	if !strings.HasPrefix(srt, "(Array ") {
+		return eq(a, b)
+	}
+	// (Array K V)
+	inner := srt[len("(Array ") : len(srt)-1]
+	// split K and V at top level
+	d, i := 0, 0
+	for i = 0; i < len(inner); i++ {
+		if inner[i] == '(' {
+			d++
+		} else if inner[i] == ')' {
+			d--
+		} else if inner[i] == ' ' && d == 0 {
+			break
+		}
+	}
+	k, v := inner[:i], inner[i+1:]
+	x := fmt.Sprintf("_m%d", depth)
+	return fmt.Sprintf("(forall ((%s %s)) %s)", x, k, supersetOf(v, app("select", a, x), app("select", b, x), depth+1))
+}
+
+func (vc *VC) monotone(comp string) bool {
+	if !strings.HasPrefix(comp, "G:") {
+		return false
+	}
+	gv := vc.P.ghostVars[strings.TrimPrefix(comp, "G:")]
+	return gv != nil && gv.Monotone
+}
+
 func (vc *VC) havocPats(m *Mem, pats []string) {
 	if len(pats) == 0 {
 		return
 	}
+	// monotone ghost sets only grow
+	before := map[string]string{}
+	for k := range vc.compSort {
+		if vc.monotone(k) && patsMatch(pats, k) {
+			before[k] = vc.get(*m, k)
+		}
+	}
+	defer func() {
+		for k, old := range before {
+			vc.assume(supersetOf(vc.compSort[k], old, vc.get(*m, k), 0))
+		}
+	}()
 	oldbrk := ""
 	if patsMatch(pats, "brk") {
 		oldbrk = vc.get(*m, vc.brkComp())
@@ -544,6 +602,30 @@ func (vc *VC) fieldComp(structT types.Type, i int) string {
 	return vc.comp(name, fmt.Sprintf("(Array Int %s)", vc.sortOf(st.Field(i).Type())))
 }
 
+// private components of a non-escaping local variable (never havocked by calls)
+func (vc *VC) locFieldComp(l *Loc, i int) string {
+	if l.Private == "" {
+		return vc.fieldComp(l.BaseT, i)
+	}
+	st := under(l.BaseT).(*types.Struct)
+	fname := st.Field(i).Name()
+	if fname == "_" {
+		fname = fmt.Sprintf("_%d", i)
+	}
+	name := "L:" + l.Private + "." + fname
+	vc.compTypes[name] = []types.Type{st.Field(i).Type()}
+	return vc.comp(name, fmt.Sprintf("(Array Int %s)", vc.sortOf(st.Field(i).Type())))
+}
+
+func (vc *VC) locCellComp(l *Loc) string {
+	if l.Private == "" {
+		return vc.cellComp(l.BaseT)
+	}
+	name := "L:" + l.Private
+	vc.compTypes[name] = []types.Type{l.BaseT}
+	return vc.comp(name, fmt.Sprintf("(Array Int %s)", vc.sortOf(l.BaseT)))
+}
+
 func (vc *VC) cellComp(t types.Type) string {
 	srt := vc.sortOf(t)
 	vc.compTypes["C:"+srt] = []types.Type{t}
@@ -670,7 +752,7 @@ func (vc *VC) havocAll(m *Mem, keepGhost bool) {
 	if keepGhost {
 		saved := map[string]string{}
 		for k := range vc.compSort {
-			if strings.HasPrefix(k, "G:") {
+			if strings.HasPrefix(k, "G:") && !vc.monotone(k) {
 				saved[k] = vc.get(*m, k)
 			}
 		}
